@@ -103,6 +103,15 @@ theorem C13_tex2txt_repl_ok (T : PTables) (fuel : Nat) (latex : Str) (o : Option
       r.unknowns = r0.unknowns ∧ r.diags = r0.diags :=
   tex2txt_repl_ok T fuel latex o thresh fs r0 hunkn h0 hlen
 
+/-- **multi-language mode, every source text**: `--repl` rewrites exactly the pieces of the MAIN language, each by
+    `replace_phrases` on its own text and map (`replPart`); pieces of the other languages, unknowns, diagnostics unchanged -/
+theorem C13_tex2txt_repl_commutes_ml (T : PTables) (fuel : Nat) (latex : Str) (o : Options) (thresh : Nat) (fs : FS)
+    (r0 : T2TResult)
+    (h0 : tex2txt T fuel latex { o with hasRepl := false } true thresh fs = .ok r0) :
+    tex2txt T fuel latex { o with hasRepl := true } true thresh fs =
+      .ok { r0 with parts := r0.parts.map (replPart T o) } :=
+  tex2txt_repl_commutes_ml T fuel latex o thresh fs r0 h0
+
 /-- options with a replacement list: initialisation of the parser does not look at it -/
 def replOptions (lines : List Str) : Options := { Generated.defaultOptions with repl := lines, hasRepl := true }
 
